@@ -49,6 +49,18 @@ def find_sinks(p, r1, f, chunk, buffer, scope_nodes=None):
         if not (isinstance(c.func, ast.Attribute) and c.func.attr == "update" and len(c.args) == 1):
             continue
         a = c.args[0]
+        if buffer is not None and isinstance(a, ast.Name) and a.id != buffer:
+            # update(view) with `view = memoryview(buffer)[:n]`: the view must be taken anew after every read - its length is the length of THAT read
+            views = [n for n in walk_no_nested(f.node) if isinstance(n, ast.Assign) and len(n.targets) == 1 and isinstance(n.targets[0], ast.Name) and n.targets[0].id == a.id and any(isinstance(x, ast.Name) and x.id == buffer for x in ast.walk(n.value))]
+            if views:
+                rnodes = [g.node_for(rc) for rc, _ in p.calls[f.qual] if isinstance(rc.func, ast.Attribute) and rc.func.attr == "readinto"]
+                vn = {g.node_for(v).id for v in views}
+                un = g.node_for(c)
+                stale = next((r for r in rnodes if g.find_path(r, {un.id}, avoid=vn) is not None), None)
+                if stale is not None:
+                    r1.check(False, f, c, f"update() is fed `{a.id}`, a view of the read buffer that is taken at line {views[0].lineno} and not again after the readinto() at line {stale.ast.lineno if hasattr(stale.ast, 'lineno') else '?'}: its length stays that of an earlier read, so the last (shorter) chunk of a file is hashed together with stale bytes of the chunk before", construct=f"update({a.id}) with a buffer view not refreshed after readinto")
+                    continue
+                a = views[0].value
         if buffer is not None:
             if not any(isinstance(x, ast.Name) and x.id == buffer for x in ast.walk(a)):
                 continue
@@ -132,6 +144,13 @@ def check_result(p, r1, f, hashers):
         r1.check(ok, f, rt, "the digest returned is not taken from the hasher(s) that were fed with the file's bytes (or keys are crossed)", construct=f"return {norm(v)[:60]}")
 
 
+def _ancestors(n):
+    x = parent(n)
+    while x is not None and not isinstance(x, (ast.FunctionDef, ast.AsyncFunctionDef)):
+        yield x
+        x = parent(x)
+
+
 def analyse(p, pr, r1, r6):
     funcs = read_functions(p)
     if not funcs:
@@ -161,6 +180,56 @@ def analyse(p, pr, r1, r6):
                 raise AnalysisError(f"{f.qual}: no open() for the handle `{handle}`")
             for oc in opens:
                 check_open_mode(p, r1, f, oc)
+        # ---------------------------------------------------------------- a loop bounded by a pre-computed number of chunks
+        # `for _ in range(n): h.update(fd.read(size))` with n computed from the file size: the count formula is evaluated for file sizes
+        # around the chunk boundaries; a count that does not cover the whole file is the recognised harmful shape
+        for rc in reads:
+            lp = next((a for a in _ancestors(rc) if isinstance(a, ast.For)), None)
+            if lp is None or not (isinstance(lp.iter, ast.Call) and norm(lp.iter.func) == "range" and len(lp.iter.args) == 1):
+                continue
+            from sa.absint import UNKNOWN, Evaluator, Val
+
+            cnt = lp.iter.args[0]
+            hops = 0
+            while isinstance(cnt, ast.Name) and hops < 4:
+                b = [n for n in walk_no_nested(f.node) if isinstance(n, ast.Assign) and len(n.targets) == 1 and isinstance(n.targets[0], ast.Name) and n.targets[0].id == cnt.id]
+                if len(b) != 1:
+                    break
+                cnt, hops = b[0].value, hops + 1
+            size_v = p.fold(rc.args[0], f) if rc.args else None
+            if not isinstance(size_v, int) or size_v <= 0:
+                raise AnalysisError(f"{f.loc(rc)}: read loop bounded by a count, chunk size not constant")
+            size_names = {x.id for x in ast.walk(rc.args[0]) if isinstance(x, ast.Name)}
+            fs_names = set()
+            for n in walk_no_nested(f.node):
+                if isinstance(n, ast.Assign) and len(n.targets) == 1 and isinstance(n.targets[0], ast.Name) and any(k in norm(n.value) for k in ("st_size", "getsize(")):
+                    fs_names.add(n.targets[0].id)
+            bad = None
+            for fsz in (0, 1, size_v - 1, size_v, size_v + 1, 2 * size_v, 2 * size_v + 1, 3 * size_v, 5 * size_v + 7):
+                def atom(e, env, fsz=fsz):
+                    if isinstance(e, ast.Name) and e.id in fs_names:
+                        return Val(fsz)
+                    if isinstance(e, ast.Name) and e.id in size_names:
+                        return Val(size_v)
+                    if isinstance(e, ast.Name):
+                        v = p.fold(e, f)
+                        if isinstance(v, int):
+                            return Val(v)
+                    return None
+
+                v = Evaluator(atom, where=f.qual).eval(cnt, {})
+                if v is UNKNOWN or not isinstance(v, int):
+                    raise AnalysisError(f"{f.loc(rc)}: the read loop is bounded by `{norm(cnt)[:60]}`, which could not be evaluated for a file of {fsz} bytes")
+                if v * size_v < fsz:
+                    bad = (fsz, v)
+                    break
+            r1.instance(f, lp, f"{f.qual}: read loop bounded by range({norm(lp.iter.args[0])[:40]})")
+            if bad:
+                r1.check(False, f, lp, f"the read loop runs `{norm(cnt)[:70]}` times: for a file of {bad[0]} bytes that is {bad[1]} chunk(s) of {size_v} bytes - not the whole file is hashed (the digest of a file whose size is such a value is the digest of a prefix, or of nothing)", construct="read loop bounded by a chunk count that does not cover the file")
+            else:
+                raise AnalysisError(f"{f.loc(rc)}: the read loop is bounded by a chunk count computed from the file size (covers the samples); this idiom is not modelled further (a file that grows while it is read)")
+        if any(fd.qual == f.qual and "bounded by a chunk count" in (fd.construct or "") for fd in r1.findings):
+            continue
         # ---------------------------------------------------------------- chunk variable / readinto buffer
         chunk_vars, read_nodes = set(), []
         for rc in reads:
